@@ -3,7 +3,9 @@ from ..core import sx
 
 class C05(Prop):
     ID = "C05"
-    THEOREMS = ["C05_search_tree_eq_scan", "C05_build_ok", "C05_search_built_eq_scan", "C05_build_empty"]
+    THEOREMS = ["C05_search_tree_eq_scan", "C05_build_ok", "C05_search_built_eq_scan", "C05_build_empty",
+                "C05_dec_enc_le", "C05_read_leaf", "C05_read_inner", "C05_search_represented",
+                "C05_chunks_all_but_last_full", "C05_built_shape", "C05_layout_represents", "C05_search_bytes_eq_scan"]
     RULE = ("exhaustive over block counts n and fan-outs b (quick n<=40,b<=5; thorough n<=120 plus sizes around b^k up to 700, b<=9), "
             "three section layouts (one chromosome monotone ends, several chromosomes, non-monotone ends as in bigBed), "
             "queries starting/ending on every chosen section boundary and one base either side; "
